@@ -24,6 +24,11 @@ REPO = os.environ.get("VF_REPO", "/repo")
 NCPU = int(os.environ.get("VF_JOBS", "0")) or min(16, os.cpu_count() or 1)
 
 
+import logging  # noqa: E402
+
+logging.getLogger("sharepoint2text").addHandler(logging.NullHandler())  # keep the library's warnings off stderr (lastResort handler)
+
+
 class HarnessError(Exception):
     pass
 
